@@ -53,6 +53,11 @@ def interp(program, t, depth=0):
         return ("alt", [inner])
     if last in ("map", "map_res", "map_opt") and len(args) == 2:
         return ("map", interp(program, args[0], depth + 1), _action(program, args[1]))
+    if last == "value" and "nom::" in callee and len(args) == 2:
+        # `value(X, p)`: recognise p, yield the constant X - the same as `map(p, |_| X)`
+        return ("map", interp(program, args[1], depth + 1), ("value", args[0]))
+    if last == "delimited" and len(args) == 3:
+        return ("seq", [interp(program, a, depth + 1) for a in args])
     if last in ("terminated", "preceded", "pair"):
         return ("seq", [interp(program, a, depth + 1) for a in args])
     if last == "separated_pair":
@@ -93,6 +98,21 @@ def action_variants(program, action):
         if p not in program.bodies:
             return out
         # a named function used as the action (`map_res(p, build_x)`) is read like a closure with the same body
+    if action[0] == "value":
+        t = T.strip(action[1])
+        while t[0] in ("ref", "deref"):
+            t = T.strip(t[2] if t[0] == "ref" else t[1])
+        if t[0] == "agg" and t[1] == "adt" and t[2] in program.adts and program.adts[t[2]]["kind"] == "enum":
+            out.add((t[2], t[3]))
+        elif t[0] == "const" and t[3]:
+            # a unit variant reaches MIR as a constant of the enum's type: its discriminant byte names the variant
+            ty = t[3].lstrip("&")
+            adt = program.adts.get(ty)
+            if adt is not None and adt["kind"] == "enum" and isinstance(t[1], (bytes, bytearray)) and len(t[1]) >= 1:
+                for v in adt["variants"]:
+                    if v.get("discr") == t[1][0] and not v.get("fields"):
+                        out.add((ty, v["name"]))
+        return out
     if action[0] in ("closure", "fn"):
         b = program.bodies.get(action[1])
         if b is None:
